@@ -727,6 +727,18 @@ thread_local! {
 fn is_twin() -> bool {
     TWIN.with(|t| *t.borrow())
 }
+pub fn twin_mode() -> bool {
+    is_twin()
+}
+
+/// Invisible element at the bottom of every stack of models with tasks: marks the start of each module event
+/// (also timer wake-ups, which have no module callback) for the per-event poll counter.
+pub struct EpochPe;
+impl ProcessingElement for EpochPe {
+    fn event_start(&mut self) {
+        crate::asy::event_boundary();
+    }
+}
 fn is_silent(m: usize) -> bool {
     SILENT.with(|s| s.borrow().get(m).copied().unwrap_or(false))
 }
@@ -767,6 +779,10 @@ pub fn run_net(prog: &NetProgram, opts: &RunOpts) -> NetResult {
             }
             st
         };
+        let has_tasks = prog.modules.iter().any(|m| !m.tasks.is_empty());
+        if has_tasks && prog.gstack.is_empty() {
+            sim.set_stack(|| EpochPe);
+        }
         if !prog.gstack.is_empty() {
             if prog.gstack_via_set {
                 sim.set_stack(mk_stack);
